@@ -115,6 +115,12 @@ Proof.
     intros x Hx. inversion Hx; subst. apply final_head. apply Nat.eqb_refl.
 Qed.
 
+Lemma chosen_a s w e old :
+  AInv s -> nth_error (workers s) w = Some old -> wq old = [e] -> AInv (upd_w s w (WChosen e)).
+Proof.
+  intros I H Ho. eapply ainv_worker with (old := old) (new := WChosen e) (lost := []); aside Ho.
+Qed.
+
 Lemma ctx_a s w e old :
   AInv s -> nth_error (workers s) w = Some old -> wq old = [e] ->
   AInv (upd_w (fst (ctx_branch s e)) w (snd (ctx_branch s e))).
@@ -123,7 +129,7 @@ Proof.
   - eapply ainv_worker with (old := old) (new := WExit) (lost := [e]); aside Ho.
     intros x [<-|[]]. left. apply final_head. apply Nat.eqb_refl.
   - destruct (fignore s).
-    + apply deliver_a with (old := old); auto.
+    + simpl. apply chosen_a with (old := old); auto.
     + simpl. eapply ainv_worker with (old := old) (new := WPopped2 e) (lost := []); aside Ho.
 Qed.
 
@@ -136,7 +142,7 @@ Proof.
   - apply ctx_a with (old := old); auto.
   - eapply ainv_worker with (old := old) (new := WIdle) (lost := [e]); aside Ho.
     intros x [<-|[]]. right; left. auto.
-  - apply deliver_a with (old := old); auto.
+  - apply chosen_a with (old := old); auto.
 Qed.
 
 Lemma worker_a s w c : AInv s -> AInv (worker_step s w c).
@@ -156,14 +162,16 @@ Proof.
     + rewrite <- R. pose proof (nth_mod_in (ready_outer s e) c) as Hin.
       apply take_a with (old := WPopped e); auto.
       intros Eb. apply ready_outer_can. rewrite <- Eb. apply Hin. rewrite R; discriminate.
-  - destruct (is_due s e); auto. apply deliver_a with (old := WParked e); auto.
+  - destruct (is_due s e); auto. apply chosen_a with (old := WParked e); auto.
   - (* WPopped2 *)
     destruct (ready_inner s e) as [|b r] eqn:R.
     + simpl. eapply ainv_worker with (old := WPopped2 e) (new := WParked2 e) (lost := []); aside H.
     + rewrite <- R. pose proof (nth_mod_in (ready_inner s e) c) as Hin.
       apply take_a with (old := WPopped2 e); auto.
       intros Eb. apply ready_inner_can. rewrite <- Eb. apply Hin. rewrite R; discriminate.
-  - destruct (is_due s e); auto. apply deliver_a with (old := WParked2 e); auto.
+  - destruct (is_due s e); auto. apply chosen_a with (old := WParked2 e); auto.
+  - (* WChosen *)
+    destruct (is_due s e || (shut s && fignore s)); auto. apply deliver_a with (old := WChosen e); auto.
   - (* WDeliv *)
     assert (G : forall s1 ev new, (forall x, new <> WDeliv x) -> wq new = [] ->
               nxt s1 = nxt s -> closed s1 = closed s -> log s1 = log s -> heap s1 = heap s -> workers s1 = workers s ->
@@ -397,11 +405,11 @@ Qed.
 
 Definition rank (w : wst) : nat :=
   match w with
-  | WPopped _ => 7 | WParked _ => 6 | WPopped2 _ => 5 | WParked2 _ => 4 | WDeliv _ => 3 | WRun _ => 2
+  | WPopped _ => 8 | WParked _ => 7 | WPopped2 _ => 6 | WParked2 _ => 5 | WChosen _ => 4 | WDeliv _ => 3 | WRun _ => 2
   | WIdle => 1 | WWait | WExit => 0
   end.
 Definition ranks (ws : list wst) : nat := fold_right (fun w a => rank w + a) 0 ws.
-Definition mu (s : st) : nat := 8 * length (heap s) + ranks (workers s).
+Definition mu (s : st) : nat := 9 * length (heap s) + ranks (workers s).
 
 Lemma ranks_wupd : forall ws w old new, nth_error ws w = Some old ->
   ranks (wupd ws w new) + rank old = ranks ws + rank new.
@@ -424,18 +432,17 @@ Proof. induction l; auto. rewrite cnt_cons, IHl. reflexivity. Qed.
 Lemma deliver_rank s e : rank (snd (deliver s e)) <= 3.
 Proof. unfold deliver. destruct (recheck s && memb (eid e) (closed s)); simpl; lia. Qed.
 
-Lemma ctx_rank s e : rank (snd (ctx_branch s e)) <= 5.
+Lemma ctx_rank s e : rank (snd (ctx_branch s e)) <= 6.
 Proof.
-  unfold ctx_branch. destruct (fcancel s); simpl; [lia|]. destruct (fignore s); simpl; [|lia].
-  pose proof (deliver_rank s e). lia.
+  unfold ctx_branch. destruct (fcancel s); simpl; [lia|]. destruct (fignore s); simpl; lia.
 Qed.
 
-Lemma take_rank s e b : rank (snd (take_branch s e b)) <= 5 /\ (b <> BCtx -> rank (snd (take_branch s e b)) <= 3).
+Lemma take_rank s e b : rank (snd (take_branch s e b)) <= 6 /\ (b <> BCtx -> rank (snd (take_branch s e b)) <= 4).
 Proof.
   destruct b; simpl.
   - split; [apply ctx_rank | congruence].
   - split; lia.
-  - pose proof (deliver_rank s e). split; lia.
+  - split; lia.
 Qed.
 
 Lemma worker_mu_strict s w c ws :
@@ -456,8 +463,7 @@ Proof.
         destruct (ready_outer_sound s e _ (I ltac:(rewrite R; discriminate))) as [Hc _]. auto. }
       apply mu_fin with (old := WPopped e); auto; destruct (take_rank s e b0); simpl; lia.
   - (* WParked *)
-    rewrite C. destruct (deliver_proj s e) as (A & B & _).
-    apply mu_fin with (old := WParked e); auto; pose proof (deliver_rank s e); simpl; lia.
+    rewrite C. apply mu_fin with (old := WParked e); auto; simpl; lia.
   - (* WPopped2 *)
     destruct (ready_inner s e) as [|b r] eqn:R.
     + apply mu_fin with (old := WPopped2 e); auto; simpl; lia.
@@ -467,8 +473,10 @@ Proof.
       destruct (take_proj s e b0) as (A & B & _); [intros; congruence|].
       apply mu_fin with (old := WPopped2 e); auto; destruct (take_rank s e b0) as [_ T]; specialize (T Hb); simpl; lia.
   - (* WParked2 *)
+    rewrite C. apply mu_fin with (old := WParked2 e); auto; simpl; lia.
+  - (* WChosen *)
     rewrite C. destruct (deliver_proj s e) as (A & B & _).
-    apply mu_fin with (old := WParked2 e); auto; pose proof (deliver_rank s e); simpl; lia.
+    apply mu_fin with (old := WChosen e); auto; pose proof (deliver_rank s e); simpl; lia.
   - (* WDeliv *)
     destruct (ekey e) as [k|]; [destruct (mode s)|]; simpl.
     + apply (mu_fin s (emit s _) w (WDeliv e)); auto; simpl; lia.
@@ -554,12 +562,13 @@ Qed.
 Lemma first_decrease : forall m s f i ws c,
   (forall n, internal (f n) = true) ->
   nth_error (workers s) i = Some ws -> active ws = true -> f m = LWorker i c ->
-  (forall e, ws = WParked e \/ ws = WParked2 e -> (etime e <= now (run s (prefix f m)))%N) ->
+  (forall e, ws = WParked e \/ ws = WParked2 e \/ ws = WChosen e -> (etime e <= now (run s (prefix f m)))%N) ->
   exists j, j <= S m /\ mu (run s (prefix f j)) < mu s.
 Proof.
   induction m; intros s f i ws c Fi H A Fm Hd.
   - exists 1. split; auto. simpl. rewrite Fm. simpl. eapply worker_mu_strict; eauto.
-    destruct ws; simpl in *; auto; try discriminate; unfold is_due; apply N.leb_le; apply Hd; auto.
+    destruct ws; simpl in *; auto; try discriminate; try (apply orb_true_iff; left);
+      unfold is_due; apply N.leb_le; apply Hd; auto.
   - assert (Fi' : forall n, internal (shiftn 1 f n) = true) by (intros n; apply Fi).
     assert (Next : forall s1, workers s1 = workers s -> mu s1 = mu s -> step s (f 0) = s1 ->
                    exists j, j <= S (S m) /\ mu (run s (prefix f j)) < mu s).
@@ -594,14 +603,14 @@ Proof.
     pose proof (run_pi w ls _ Hw (init_pi w m md rc bc)) as P. fold s in P. destruct P as (Len & _).
     assert (Hi : i < w). { rewrite <- Len. apply nth_error_Some. congruence. }
     destruct F as (F1 & F2 & F3).
-    set (T := match ws with WParked e | WParked2 e => etime e | _ => 0%N end).
+    set (T := match ws with WParked e | WParked2 e | WChosen e => etime e | _ => 0%N end).
     destruct (F3 0 T) as (m1 & _ & HT).
     destruct (F2 m1 i Hi) as (m2 & c & Hm & Fm).
     assert (HT2 : (T <= now (run s (prefix f m2)))%N).
     { replace m2 with (m1 + (m2 - m1)) by lia. rewrite run_prefix_split.
       eapply N.le_trans; [exact HT | apply run_now_mono]. }
     destruct (first_decrease m2 s f i ws c F1 H Ac Fm) as (j & Hj & Lt).
-    { intros e [-> | ->]; exact HT2. }
+    { intros e [-> | [-> | ->]]; exact HT2. }
     assert (E : run s (prefix f j) = run (init w m md rc bc) (ls ++ prefix f j)) by (unfold s; rewrite run_app; auto).
     destruct (IHk w m md rc bc (ls ++ prefix f j) (shiftn j f) Hw) as (n & Hn).
     + rewrite <- E. lia.
@@ -716,16 +725,16 @@ Definition fair_demo : st :=
       [LAdd 5%N None; LAdd 3%N (Some 0); LAdd 9%N None; LAdd 4%N (Some 1); LCancel 3; LWorker 0 0].
 
 Lemma fair_demo_run :
-  mu fair_demo = 16 /\ all_delivered (log fair_demo) = false /\
+  mu fair_demo = 18 /\ all_delivered (log fair_demo) = false /\
   (let s' := run fair_demo (prefix (round_robin 2 0) 30) in
-   waiting s' = [] /\ workers s' = [WWait; WWait] /\ delivered (log s') = [(0, 6%N); (1, 3%N)] /\
+   waiting s' = [] /\ workers s' = [WWait; WWait] /\ delivered (log s') = [(0, 8%N); (1, 5%N)] /\
    all_delivered (log s') = true /\ mu s' = 0).
 Proof. vm_compute. repeat split; reflexivity. Qed.
 
 Lemma fair_nonvacuous :
   (forall w s, 0 < w -> fair w s (round_robin w 0)) /\
-  mu fair_demo = 16 /\ all_delivered (log fair_demo) = false /\
+  mu fair_demo = 18 /\ all_delivered (log fair_demo) = false /\
   (let s' := run fair_demo (prefix (round_robin 2 0) 30) in
-   waiting s' = [] /\ workers s' = [WWait; WWait] /\ delivered (log s') = [(0, 6%N); (1, 3%N)] /\
+   waiting s' = [] /\ workers s' = [WWait; WWait] /\ delivered (log s') = [(0, 8%N); (1, 5%N)] /\
    all_delivered (log s') = true /\ mu s' = 0).
 Proof. split; [exact round_robin_fair | exact fair_demo_run]. Qed.
